@@ -15,7 +15,7 @@ from ..core import rule
 from ..dataflow import DefUse, depends_on, origins
 from ..program import AnalysisError, dotted, src
 from .storelib import REFUSALS, STORE_MODULES, facts, node_desc
-from .common import loops_over
+from .common import loops_over, requires_edge
 
 STORE_WRITE_API = [
     ("xandikos.store.git.GitStore", "import_one"),
@@ -258,7 +258,7 @@ def h1(ctx):
                                 t = tn.ast
                                 if not (isinstance(t, ast.Compare) and len(t.ops) == 1 and isinstance(t.ops[0], ast.Eq)):
                                     continue
-                                if n.id in cfg.reachable([cfg.entry], block_edges=[(tn, m_, l_) for m_, l_ in tn.succ if l_ == "t"]):
+                                if not requires_edge(cfg, n, tn, "t"):
                                     continue   # reaching the call does not require equality
                                 sides = [t.left, t.comparators[0]]
                                 for s1, s2 in (sides, sides[::-1]):
